@@ -102,7 +102,13 @@ func (e *env) countBaseOf(srih bool) (*countBase, error) {
 	return cb, cb.err
 }
 
-var countSlacks = []int{-3, -2, -1, 0}
+// countSlacks: quick tier around the boundary, thorough tier a wider band.
+func (e *env) countSlacks() []int {
+	if e.thor {
+		return []int{-9, -8, -7, -6, -5, -4, -3, -2, -1, 0, 1, 2, 3}
+	}
+	return []int{-3, -2, -1, 0}
+}
 
 func (e *env) runCount() map[string]any {
 	type job struct {
@@ -111,7 +117,7 @@ func (e *env) runCount() map[string]any {
 	}
 	var jobs []job
 	for _, srih := range []bool{false, true} {
-		for _, s := range countSlacks {
+		for _, s := range e.countSlacks() {
 			jobs = append(jobs, job{srih, s})
 		}
 	}
@@ -122,7 +128,7 @@ func (e *env) runCount() map[string]any {
 			e.f.add(k, f.Detail)
 		}
 	})
-	return map[string]any{"pool": countPool, "fit_at_slack_0": countFit, "slacks": countSlacks, "families": []string{"plain", "srih"}, "cases": len(jobs),
+	return map[string]any{"pool": countPool, "fit_at_slack_0": countFit, "slacks": e.countSlacks(), "families": []string{"plain", "srih"}, "cases": len(jobs),
 		"tx_size": countBases[0].size, "MaxBlockSize_at_slack_0": countBases[0].h0 + 2 + countFit*countBases[0].size}
 }
 
@@ -132,7 +138,7 @@ func (e *env) countCase(srih bool, slack int, out *findings) {
 	fail := func(what, note string) {
 		r := *rec
 		r.Note = note
-		out.add(fmt.Sprintf("proposable:%s:%s", what, name), &r)
+		out.add(fmt.Sprintf("packing:%s:%s", what, name), &r)
 	}
 	defer func() {
 		if p := recover(); p != nil {
